@@ -42,24 +42,23 @@ pub(crate) enum Directive {
 pub(crate) fn parse_directive(jsx_attr: &JSXAttr, is_component: bool) -> Directive {
     let (name, argument, splitted) = match &jsx_attr.name {
         JSXAttrName::Ident(ident) => {
+            // `v-name_mod1_mod2`: every `_` suffix is a modifier, the argument can only be
+            // given as `v-name:arg` or in the array form.
             let mut splitted = ident
                 .sym
                 .trim_start_matches('v')
                 .trim_start_matches('-')
                 .split('_');
             (
-                splitted.next().unwrap_or(&*ident.sym).to_ascii_lowercase(),
-                splitted.next(),
+                lower_first(splitted.next().unwrap_or(&*ident.sym)),
+                None,
                 splitted,
             )
         }
         JSXAttrName::JSXNamespacedName(JSXNamespacedName { ns, name, .. }) => {
             let mut splitted = name.sym.split('_');
             (
-                ns.sym
-                    .trim_start_matches('v')
-                    .trim_start_matches('-')
-                    .to_ascii_lowercase(),
+                lower_first(ns.sym.trim_start_matches('v').trim_start_matches('-')),
                 Some(splitted.next().unwrap_or(&*name.sym)),
                 splitted,
             )
@@ -141,6 +140,16 @@ pub(crate) fn parse_directive(jsx_attr: &JSXAttr, is_component: bool) -> Directi
         modifiers: modifiers.and_then(|modifiers| transform_modifiers(modifiers, false)),
         value,
     })
+}
+
+/// `vFooBar` names the directive `fooBar`: only the first letter is lower-cased.
+fn lower_first(name: &str) -> String {
+    match name.chars().next() {
+        Some(first) if first.is_ascii_uppercase() => {
+            format!("{}{}", first.to_ascii_lowercase(), &name[1..])
+        }
+        _ => name.to_string(),
+    }
 }
 
 fn parse_modifiers(exprs: &[Option<ExprOrSpread>]) -> BTreeSet<Atom> {
